@@ -142,6 +142,10 @@ def render(t, var=None):
         return f'({R(t[1])})[is {t[2]}]'
     if op == 'cast':
         return f'(<{t[1]}>{R(t[2])})'
+    if op == 'rng':
+        return f'range({num_text(t[1], 2)}, {num_text(t[1], 20)})'
+    if op == 'rcast':
+        return f'(<range<{t[1]}>>{R(t[2])})'
     if op in ('union', 'coal', 'plus', 'eq', 'opteq', 'in'):
         sym = {'union': 'union', 'coal': '??', 'plus': '+', 'eq': '=',
                'opteq': '?=', 'in': 'in'}[op]
@@ -175,6 +179,8 @@ def type_name(ty):
         return f'tuple<{type_name(ty[1])}, {type_name(ty[2])}>'
     if ty[0] == 'array':
         return f'array<{type_name(ty[1])}>'
+    if ty[0] == 'range':
+        return f'range<std::{ty[1]}>'
     raise ValueError(ty)
 
 
@@ -186,6 +192,8 @@ def desc_name(d):
         return 'tuple<' + ', '.join(desc_name(x) for x in d[1]) + '>'
     if d[0] == 'array':
         return f'array<{desc_name(d[1])}>'
+    if d[0] == 'range':
+        return f'range<{desc_name(d[1])}>'
     if d[0] == 'shape':
         return d[1]
     if d[0] == 'object':
@@ -209,6 +217,8 @@ def stype_name(stype, schema):
         return 'tuple<' + ', '.join(stype_name(s, schema) for s in subs) + '>'
     if stype.is_array():
         return f'array<{stype_name(stype.get_subtypes(schema)[0], schema)}>'
+    if stype.is_range():
+        return f'range<{stype_name(stype.get_subtypes(schema)[0], schema)}>'
     # views (aliased iterator values, shaped objects) name their material type
     mt = stype.material_type(schema)[1] if hasattr(stype, 'material_type') else stype
     if mt.is_object_type():
@@ -341,6 +351,8 @@ def canon_spec(v):
         return ('t', tuple(canon_spec(x) for x in v[1]))
     if v[0] == 'a':
         return ('a', tuple(canon_spec(x) for x in v[1]))
+    if v[0] == 'r':
+        return ('r', float(v[2]) / 2, float(v[3]) / 2)
     raise ValueError(v)
 
 
